@@ -215,16 +215,18 @@ func MakeDID(seed int64) string {
 // Spec of one credential.
 type Spec struct {
 	Schema        *Schema   `json:"schema"`
-	Subject       any       `json:"subject"`                 // nil = no id; string DID; anything else is written as is
-	SubjectNull   bool      `json:"subject_null"`            // "id": null
-	Expiration    *int64    `json:"expiration,omitempty"`    // unix seconds
-	Omit          []string  `json:"omit,omitempty"`          // field paths left out
-	NoSubjectType bool      `json:"no_subject_type"`         // credentialSubject has no "type": the top-level type pair decides
-	TopTypes      []string  `json:"top_types,omitempty"`     // override of the top-level "type" array
-	Values        [5]string `json:"values"`                  // price, count, name, insured, since ("" = default)
-	ExtraCtx      []string  `json:"extra_ctx,omitempty"`     // more context URLs
-	SubjectTypes  []string  `json:"subject_types,omitempty"` // credentialSubject.type written as this array instead of the type name
-	Undefined     bool      `json:"undefined,omitempty"`     // credentialSubject carries a property no context defines (merklizes only with safe mode off)
+	Subject       any       `json:"subject"`                  // nil = no id; string DID; anything else is written as is
+	SubjectNull   bool      `json:"subject_null"`             // "id": null
+	Expiration    *int64    `json:"expiration,omitempty"`     // Unix seconds of the expiration instant (floor)
+	ExpNanos      int64     `json:"exp_nanos,omitempty"`      // nanoseconds past that second (0 <= n < 1e9): a fractional expirationDate
+	ExpOffsetMin  int       `json:"exp_offset_min,omitempty"` // the date is written with this zone offset
+	Omit          []string  `json:"omit,omitempty"`           // field paths left out
+	NoSubjectType bool      `json:"no_subject_type"`          // credentialSubject has no "type": the top-level type pair decides
+	TopTypes      []string  `json:"top_types,omitempty"`      // override of the top-level "type" array
+	Values        [5]string `json:"values"`                   // price, count, name, insured, since ("" = default)
+	ExtraCtx      []string  `json:"extra_ctx,omitempty"`      // more context URLs
+	SubjectTypes  []string  `json:"subject_types,omitempty"`  // credentialSubject.type written as this array instead of the type name
+	Undefined     bool      `json:"undefined,omitempty"`      // credentialSubject carries a property no context defines (merklizes only with safe mode off)
 	// AltSchema: the document a SECOND document loader serves at Schema.URL (same URL, type
 	// name and type IRI, other attribute).  nil = the second loader serves the same document.
 	AltSchema *Schema `json:"alt_schema,omitempty"`
@@ -298,7 +300,7 @@ func Build(sp Spec) (*Cred, error) {
 		"credentialSchema":  map[string]any{"id": "https://schemas.example/gen/schema.json", "type": "JsonSchemaValidator2018"},
 	}
 	if sp.Expiration != nil {
-		doc["expirationDate"] = time.Unix(*sp.Expiration, 0).UTC().Format(time.RFC3339)
+		doc["expirationDate"] = time.Unix(*sp.Expiration, sp.ExpNanos).In(time.FixedZone("", sp.ExpOffsetMin*60)).Format(time.RFC3339Nano)
 	}
 	b, err := json.Marshal(doc)
 	if err != nil {
@@ -422,15 +424,16 @@ func TermsCoq(f *coqgen.File, ts []Term, ok bool) string {
 
 // View is everything the model reads from a credential.
 type View struct {
-	MzOK    bool
-	CsType  *RawV
-	TopType *RawV
-	Root    *big.Int
-	Fields  map[string]*big.Int // nil value = the lookup failed
-	Subject *string             // fmt.Sprintf("%v", id)
-	Exp     *int64
-	Terms   []Term
-	CtxOK   bool
+	MzOK     bool
+	CsType   *RawV
+	TopType  *RawV
+	Root     *big.Int
+	Fields   map[string]*big.Int // nil value = the lookup failed
+	Subject  *string             // fmt.Sprintf("%v", id)
+	Exp      *int64              // vc.Expiration.Unix()
+	ExpNanos int64               // vc.Expiration.Nanosecond()
+	Terms    []Term
+	CtxOK    bool
 }
 
 // ViewOf computes the view with separate public-API calls (never ToCoreClaim).
@@ -448,6 +451,7 @@ func (e *Env) ViewOfWith(vc *verifiable.W3CCredential, paths []string, mzOpts []
 	if vc.Expiration != nil {
 		u := vc.Expiration.Unix()
 		v.Exp = &u
+		v.ExpNanos = int64(vc.Expiration.Nanosecond())
 	}
 	mz, err := vc.Merklize(context.Background(), mzOpts...)
 	if err != nil {
@@ -533,9 +537,9 @@ func (v View) Coq(f *coqgen.File) string {
 	}
 	exp := "None"
 	if v.Exp != nil {
-		exp = "(Some " + coqgen.SNumI(*v.Exp) + ")"
+		exp = "(Some (" + coqgen.SNumI(*v.Exp) + ", " + coqgen.Limbs(big.NewInt(v.ExpNanos)) + "))"
 	}
-	return fmt.Sprintf("mk_cred %s %s %s %s", mz, subj, exp, TermsCoq(f, v.Terms, v.CtxOK))
+	return fmt.Sprintf("mk_cred_t %s %s %s %s", mz, subj, exp, TermsCoq(f, v.Terms, v.CtxOK))
 }
 
 // ---------- primitive oracles ----------
